@@ -51,6 +51,10 @@ m = {
     "engines": [
         {"name": "E-RC", "path": "harness/common/main_rc.cc", "serves_properties": [c["property_id"] for c in checks],
          "kind_free_text": "rapidcheck generates and shrinks a choice stream that each target decodes into a structured case; explicit oracle inside the target; ASan+UBSan build"},
+        {"name": "E-SCHED", "path": "sched/vsched.h", "serves_properties": ["C01", "C02", "C03", "C11"],
+         "kind_free_text": "deterministic schedule-controlled execution: the unmodified concurrent sources are token-renamed (sched/rename.sed) and compiled against a scheduler shim that owns atomics, mutexes, condition variables, threads and the clock; schedules (weighted / explicit / PCT) are part of the generated choice stream; bounded-exhaustive DFS by preemption bound for small C11 configurations"},
+        {"name": "E-THR", "path": "harness/batch_thr.cc", "serves_properties": ["C01", "C03", "C04", "C05", "C06", "C10", "C13"],
+         "kind_free_text": "real OS threads on the ASan and TSan builds with generated thread programs; adds sanitizer (data race / memory) and stamp-free invariant evidence, never the sole decider of a schedule-quantified clause"},
         {"name": "E-FUZZ", "path": "harness/common/main_fuzz.cc", "serves_properties": sorted({pid for pid, P in props.PROPS.items() if any(r["engine"] == "fuzz" for r in P["runs"])}),
          "kind_free_text": "libFuzzer coverage-guided mutation of the same choice stream / raw header bytes, semantic oracle inside the target"},
     ],
